@@ -51,6 +51,7 @@ func runC02(e *core.Env) error {
 				w.grow(1 + rr.Intn(3))
 			}
 			w.save("p", snaps)
+			before0 := w.digest()
 			w.step(t, noFault)
 			nDB, nSrc := w.lastCounts(t)
 			final0 := w.digest()
@@ -58,6 +59,12 @@ func runC02(e *core.Env) error {
 				oracles = append(oracles, w.withinOracle(t, 0))
 				if growthOnly {
 					oracles = append(oracles, w.projOracle(t, 0))
+				}
+				if tag == "double" && w.digest() != before0 {
+					// one of the two struck steps went through (its fault position was never reached): the
+					// next step is then the FOLLOWING step, not a retry of this one; only the invariant applies
+					w.tags["double-progressed"]++
+					return
 				}
 				// retry after the fault clears: completes as if the fault had not happened
 				w.step(t, noFault)
